@@ -440,6 +440,26 @@ func runC11(c *Ctx) {
 				cs.close(c)
 				return
 			}
+			if idx%97 == 11 && len(text) > 20 {
+				// the same text once more right after the split length was changed through Config(): the pieces are
+				// cut for the length in force now
+				if !cs.flush(c) {
+					cs.close(c)
+					return
+				}
+				b := []int{13, 20, 60, 200, 450, 0}[r.Intn(6)]
+				if b == sl {
+					b = 33
+				}
+				cs.s.Conn.Config().SplitLen, cs.splitLen = b, b
+				okR := cs.call(c, Case("prng", idx), m, text, "resplit-"+cls) && cs.flush(c)
+				cs.s.Conn.Config().SplitLen, cs.splitLen = sl, sl
+				c.R.Count("texts_sent_again_after_a_split_length_change", 1)
+				if !okR {
+					cs.close(c)
+					return
+				}
+			}
 		}
 		if cs != nil {
 			cs.close(c)
